@@ -7,7 +7,9 @@ import (
 	"io"
 	"math/rand"
 	"net"
+	"sort"
 	"strings"
+	"syscall"
 	"time"
 
 	"lalverif/fw"
@@ -253,9 +255,10 @@ func c13SdpVariants(r *rand.Rand) [][]byte {
 }
 
 type c13Input struct {
-	Class string
-	Run   func(s *srv.Server) error
-	Desc  string
+	Class  string
+	Run    func(s *srv.Server) error
+	Desc   string
+	Always bool // kept by the quick tier's sampling of upstream scripts
 }
 
 func c13Inputs(c *fw.Ctx, i int, s *srv.Server, bgName string) []c13Input {
@@ -900,9 +903,9 @@ func init() {
 		CaseTimeout: func(string) time.Duration { return 10 * time.Minute },
 		Rule: "sub-inputs per surface against the whole in-process server: RTSP command connection (ANNOUNCE with ≈250 mutated SDP bodies — clock rates 0/1/999/2^31, removed/duplicated lines, truncations, static payload types without rtpmap, encoding names without a depacketiser, broken sprop/config/fmtp —, interleaved `$` frames with hostile RTP/RTCP bodies on every channel before/after SETUP/RECORD and from players, method sequences out of order with 14 Transport header variants, three Transport headers cut at every offset, Authorization headers cut at every offset (half of the child processes run the server with RTSP Digest authentication on), request lines × URIs × header oddities, raw bytes), UDP datagrams (RTP with padding/CSRC/extension/STAP/FU/AU-header extremes, truncated at every offset, RTCP SR truncated at every offset) to the RTP/RTCP ports of live UDP pub and sub sessions, GB28181 PS bodies (valid PS truncated/bit-mutated, every start code with short tails) over UDP and TCP framing, HTTP requests to the FLV/TS/HLS listener (path × Upgrade × version oddities) and every HTTP-API endpoint with malformed/typed-wrong JSON, WebSocket-RTSP / WebSocket-FLV frames (64-bit lengths, masks, opcodes, truncated handshakes), and scripted upstream replies while lal is RTMP pull / RTSP pull / HTTP-FLV pull client. " +
 			"an RTSP player kept attached without PLAY while UDP / interleaved publishers of its stream leave with RTP still arriving, and while the next publisher pipelines RTP behind its ANNOUNCE; " +
-			"monitors: process liveness (crash signature + resumption after the crashing input) and a canary (RTMP publish+play and an RTSP DESCRIBE of a background stream) after every group. cell = surface/input class.",
+			"monitors: process liveness (crash signature + resumption after the crashing input), a canary (RTMP publish+play and an RTSP DESCRIBE of a background stream) after every group, and an idle-CPU monitor at the same points: with no input in flight the process's own CPU time (getrusage) over 0.2 s and, if above half a core, over two further 0.7 s windows must stay below half a core - a session that spins instead of ending is reported with the running lal functions. cell = surface/input class.",
 		Assumptions: []string{"an error reply, a closed session or a kept-open session are all fine; only process death / failing canary is judged"},
-		MinCells: 12,
+		MinCells:    12,
 		Run: func(c *fw.Ctx, i int) {
 			s := crashServer(c, c13ConfFor(i))
 			if s == nil {
@@ -929,16 +932,77 @@ func init() {
 						c.Violate("canary/stopped-serving", fmt.Sprintf("%v (after class %s)", err, in.Class), goroutineDump())
 						return
 					}
+					if c13Spin(c, in.Class) {
+						return
+					}
 				}
 			}
 			if err := c13Canary(s, bg, fmt.Sprintf("c13c%d_end", i)); err != nil {
 				c.Violate("canary/stopped-serving", err.Error(), goroutineDump())
+			}
+			if len(ins) > 0 {
+				c13Spin(c, ins[len(ins)-1].Class)
 			}
 			if i < 8 && len(ins) > 0 {
 				c.Sample(map[string]interface{}{"class": ins[len(ins)/2].Class, "desc": trunc(ins[len(ins)/2].Desc, 300), "inputs_in_case": len(ins)})
 			}
 		},
 	})
+}
+
+// c13Spin: "malformed input is answered with an error or by closing that session only" - a session that neither ends
+// nor waits but keeps a core busy for ever is neither. With no input in flight the process (lal and the idle harness)
+// must be nearly idle: its own CPU time (getrusage, so machine load can only lower it) is sampled over a short window
+// and, if more than half a core is busy, over two longer ones. Only a sustained spin is reported; the witness names
+// the lal functions that are running or runnable at that moment.
+func c13Spin(c *fw.Ctx, after string) bool {
+	busy := func(w time.Duration) float64 {
+		var a, b syscall.Rusage
+		syscall.Getrusage(syscall.RUSAGE_SELF, &a)
+		t0 := time.Now()
+		time.Sleep(w)
+		syscall.Getrusage(syscall.RUSAGE_SELF, &b)
+		cpu := time.Duration(b.Utime.Nano()+b.Stime.Nano()) - time.Duration(a.Utime.Nano()+a.Stime.Nano())
+		return float64(cpu) / float64(time.Since(t0))
+	}
+	c.Count("idle_cpu_samples", 1)
+	if busy(200*time.Millisecond) < 0.5 {
+		return false
+	}
+	b1 := busy(700 * time.Millisecond)
+	b2 := busy(700 * time.Millisecond)
+	if b1 < 0.5 || b2 < 0.5 {
+		return false
+	}
+	dump := goroutineDump()
+	hot := map[string]int{}
+	for _, g := range strings.Split(dump, "\n\n") {
+		lines := strings.Split(g, "\n")
+		if len(lines) < 2 || !(strings.Contains(lines[0], "[running") || strings.Contains(lines[0], "[runnable")) {
+			continue
+		}
+		for _, l := range lines[1:] {
+			if strings.HasPrefix(l, "github.com/q191201771/") {
+				f := l
+				if k := strings.LastIndex(f, "("); k > 0 {
+					f = f[:k]
+				}
+				hot[strings.TrimPrefix(f, "github.com/q191201771/")]++
+				break
+			}
+		}
+	}
+	var names []string
+	for f := range hot {
+		names = append(names, f)
+	}
+	sort.Strings(names)
+	where := "unknown"
+	if len(names) > 0 {
+		where = names[0]
+	}
+	c.Violate("spin/"+where, fmt.Sprintf("with no input in flight the process keeps %.1f / %.1f cores busy (two 0.7 s windows, own CPU time); running or runnable lal functions: %v (after class %s)", b1, b2, hot, after), dump)
+	return true
 }
 
 var c13Bg *ref.RtmpPublisher
